@@ -18,7 +18,7 @@ use std::time::Duration;
 pub const META: Meta = Meta {
     id: "C18",
     level: "fault_enumeration",
-    rule: "Real files in a scratch directory: sizes {0,1,65535,65536,65537,131072,200001} x every range whose ends lie on, one before or one after each 64 KiB read boundary (plus 0, 1, size-1, size; empty and whole ranges) read through get_range and through serve() with a Range header; truncation of the file to each of {0, start, start+1, a boundary-1, a boundary, end-1} between construction and poll k for every k; growth after construction; metadata and ETag under re-open, under metadata-only inode operations in a later wall-clock second (chmod, hard link, rename and back, the same mtime re-applied: same tag), append, set_modified(+-1 ns, +-1 s), replacement by a same-length same-mtime file; directories and /dev/null as non-regular files; two or three streams of one entity polled alternately; ranges of 2^32 bytes and more on sparse files (first chunks); whole sparse files of 64-100 MiB (thorough 1 GiB) read to the end (over a thousand reads of one stream). Oracle: std::fs (file bytes, Metadata), non-empty chunks, clean end or an error (never a short clean end, never an empty chunk) within a poll budget owned by the harness. Non-trivial = range crossing a 64 KiB boundary, or a truncation that hits mid-stream; distinct by fingerprint of case.",
+    rule: "Real files in a scratch directory: sizes {0,1,65535,65536,65537,131072,200001} x every range whose ends lie on, one before or one after each 64 KiB read boundary (plus 0, 1, size-1, size; empty and whole ranges) read through get_range and through serve() with a Range header; truncation of the file to each of {0, start, start+1, a boundary-1, a boundary, end-1} between construction and poll k for every k; growth after construction; metadata and ETag under re-open, under metadata-only inode operations in a later wall-clock second (chmod, hard link, rename and back, the same mtime re-applied: same tag), append, set_modified(+-1 ns, +-1 s), replacement by a same-length same-mtime file; directories and /dev/null as non-regular files; two or three streams of one entity polled alternately; histories on one instance (a stream read to the end, truncation, a second stream); ranges of 2^32 bytes and more on sparse files (first chunks); whole sparse files of 64-100 MiB (thorough 1 GiB) read to the end (over a thousand reads of one stream). Oracle: std::fs (file bytes, Metadata), non-empty chunks, clean end or an error (never a short clean end, never an empty chunk) within a poll budget owned by the harness. Non-trivial = range crossing a 64 KiB boundary, or a truncation that hits mid-stream; distinct by fingerprint of case.",
     assumptions: &[
         "sandbox filesystem semantics (regular files give full reads; running as root, permission errors are not explored)",
         "an ETag difference after a metadata change is demanded only when std::fs::Metadata itself reports the change",
@@ -269,6 +269,62 @@ async fn interleaved_case(dir: &Path, size: u64, ranges: &[(u64, u64)], order_se
 
 /// Sparse files of 4 GiB and more (all zeros, no disk space): ranges longer than 2^32 bytes,
 /// read for a few chunks only.
+/// A history on ONE entity instance: a first stream read to its end, the file truncated, a second
+/// stream. What an earlier stream read must not stand in for the file later on.
+async fn instance_history_case(dir: &Path, size: u64, r1: (u64, u64), trunc: u64, r2: (u64, u64)) -> Result<(), Fail> {
+    let p = dir.join("h");
+    write_file(&p, size);
+    let crf = Crf::new(File::open(&p).expect("open"), http::HeaderMap::new()).map_err(|e| Fail { sig: "construct-failed".into(), msg: e.to_string() })?;
+    let what = format!("size {size}, first stream {r1:?} read to the end, truncated to {trunc}, second stream {r2:?} of the same instance");
+    // first stream, file intact
+    let mut s1 = crf.get_range(r1.0..r1.1);
+    let mut got1 = Vec::new();
+    for i in 0..((r1.1 - r1.0) / 65536 + 4) {
+        match next(&mut s1).await {
+            Item::Panic(m) => return fail("panic", format!("first stream, poll {i} panicked: {m}; {what}")),
+            Item::End => break,
+            Item::Err(e) => return fail("history:first-stream-error", format!("first stream failed ({e}) on the intact file; {what}")),
+            Item::Data(d) => got1.extend_from_slice(&d),
+        }
+    }
+    ensure!(got1 == content(r1.0, (r1.1 - r1.0) as usize), "history:first-stream-bytes", "first stream delivered {} bytes that differ from the file; {what}", got1.len());
+    drop(s1);
+    File::options().write(true).open(&p).expect("open for truncation").set_len(trunc).expect("truncate");
+    let mut s2 = crf.get_range(r2.0..r2.1);
+    let mut got2 = Vec::new();
+    let mut outcome = "budget";
+    for i in 0..((r2.1 - r2.0) / 65536 + 4) {
+        match next(&mut s2).await {
+            Item::Panic(m) => return fail("panic", format!("second stream, poll {i} panicked: {m}; {what}")),
+            Item::End => {
+                outcome = "end";
+                break;
+            }
+            Item::Err(_) => {
+                outcome = "error";
+                break;
+            }
+            Item::Data(d) => {
+                ensure!(!d.is_empty(), "empty-chunk", "second stream yielded an empty chunk; {what}");
+                got2.extend_from_slice(&d);
+            }
+        }
+    }
+    let want = content(r2.0, (r2.1 - r2.0) as usize);
+    ensure!(want.starts_with(&got2), "history:second-stream-bytes", "the second stream's {} bytes are not the file's; {what}", got2.len());
+    if r2.1 <= trunc {
+        ensure!(outcome == "end" && got2.len() as u64 == r2.1 - r2.0, "history:second-stream-short", "the range lies within the truncated file but the stream gave {} bytes and ended with {outcome}; {what}", got2.len());
+    } else {
+        ensure!(
+            outcome == "error" && (got2.len() as u64) <= trunc.saturating_sub(r2.0),
+            "history:truncation-not-noticed",
+            "the file now ends at {trunc}, before the range end: the stream must fail, it delivered {} bytes and ended with {outcome}; {what}",
+            got2.len()
+        );
+    }
+    Ok(())
+}
+
 async fn sparse_case(dir: &Path, size: u64, start: u64, end: u64, polls: u32) -> Result<(), Fail> {
     let p = dir.join("sparse");
     {
@@ -766,6 +822,34 @@ pub fn run(cx: &Cx) -> Acc {
             });
         }));
     }
+    // Histories on one instance: read, truncate, read again.
+    let hist_sizes: Vec<u64> = vec![1, 100, 4096, 65_535, 65_536, 65_537, 200_001];
+    acc.merge(par_units(cx, "instance-history", &hist_sizes, true, "one ChunkedReadFile: first stream {whole, head, tail} read to the end, truncation to {0, half, size-1}, second stream {whole, beyond the cut, within the cut, last byte}", |cx, &size, acc| {
+        let scratch = Scratch::new(&format!("c18h-{size}"));
+        let firsts = [(0, size), (0, size.min(10)), (size - size.min(7), size)];
+        let cuts = [0, size / 2, size - 1];
+        for r1 in firsts {
+            for t in cuts {
+                let seconds = [(0, size), (t.min(size - 1), size), (0, t), (size - 1, size)];
+                for r2 in seconds {
+                    if r2.0 >= r2.1 {
+                        continue;
+                    }
+                    let case = json!({"history": {"size": size, "r1": [r1.0, r1.1], "trunc": t, "r2": [r2.0, r2.1]}});
+                    let dir = scratch.dir.clone();
+                    with_runtime(|rt| {
+                        let ok = acc.run_case(cx, "instance-history", &case, |_| match rt.block_on(rt.spawn(async move { instance_history_case(&dir, size, r1, t, r2).await })) {
+                            Ok(r) => r,
+                            Err(e) => fail("panic", format!("task panicked: {e}")),
+                        });
+                        if ok {
+                            acc.note("instance-history", size > 1, crate::util::mix(size * 31 + t, r1.1 * 7 + r2.0 * 3 + r2.1), || case.clone());
+                        }
+                    });
+                }
+            }
+        }
+    }));
     // The *number* of reads of one stream: whole sparse files of 64-100 MiB (thorough: 1 GiB) drained
     // to the end, position markers every 7 MiB + 13.
     let long: Vec<(u64, u64)> = if cx.tier == Tier::Thorough { vec![((100 << 20) + 7, 0), ((64 << 20) + 1, 3), (1 << 30, 5), ((300 << 20) + 65_535, 65_537)] } else { vec![((100 << 20) + 7, 0), ((64 << 20) + 1, 3)] };
@@ -811,6 +895,15 @@ pub fn replay(_cx: &Cx, _phase: &str, case: &Value, acc: &mut Acc) -> Check {
     }
     if let Some(v) = case.get("pre_epoch") {
         return pre_epoch_checks(&scratch.dir, v[0].as_u64().unwrap_or(0), v[1].as_u64().unwrap_or(0), v[2].as_u64().unwrap_or(0) as u32, acc);
+    }
+    if let Some(h) = case.get("history") {
+        let g = |k: &str, i: usize| h[k][i].as_u64().unwrap_or(0);
+        let (size, r1, t, r2) = (h["size"].as_u64().unwrap_or(1), (g("r1", 0), g("r1", 1)), h["trunc"].as_u64().unwrap_or(0), (g("r2", 0), g("r2", 1)));
+        let dir = scratch.dir.clone();
+        return with_runtime(|rt| match rt.block_on(rt.spawn(async move { instance_history_case(&dir, size, r1, t, r2).await })) {
+            Ok(r) => r,
+            Err(e) => fail("panic", format!("task panicked: {e}")),
+        });
     }
     if let Some(sp) = case.get("sparse") {
         let (size, a, b) = (sp["size"].as_u64().unwrap_or(0), sp["start"].as_u64().unwrap_or(0), sp["end"].as_u64().unwrap_or(0));
